@@ -15,6 +15,7 @@ mod c02;
 mod c03;
 mod c06;
 mod c07;
+mod c08;
 mod chan;
 
 #[global_allocator]
@@ -66,6 +67,7 @@ fn main() {
             "C03" => c03::replay(&v["replay"]),
             "C06" => c06::replay(&v["replay"]),
             "C07" => c07::replay(&v["replay"]),
+            "C08" => c08::replay(&v["replay"]),
             _ => {
                 eprintln!("no replay for {}", id);
                 std::process::exit(2);
@@ -88,6 +90,7 @@ fn main() {
             "C03" => c03::run(thorough),
             "C06" => c06::run(thorough),
             "C07" => c07::run(thorough),
+            "C08" => c08::run(thorough),
             other => {
                 eprintln!("unknown check {}", other);
                 2
